@@ -21,7 +21,8 @@ class OutcomePlan:
     """
 
     def __init__(self, seed, prog, policy='complete', p_fail=0.3,
-                 p_subfail=0.3, p_vanish=0.0, p_optout=0.5):
+                 p_subfail=0.3, p_vanish=0.0, p_optout=0.5,
+                 p_subvanish=0.0):
         self.seed = seed
         self.prog = prog
         self.policy = policy
@@ -29,6 +30,7 @@ class OutcomePlan:
         self.p_subfail = p_subfail
         self.p_vanish = p_vanish
         self.p_optout = p_optout
+        self.p_subvanish = p_subvanish
         self.cache = {}
         self.overrides = {}
 
@@ -62,6 +64,19 @@ class OutcomePlan:
         s = 0
         if t.submit_retries and rng.random() < self.p_subfail:
             s = rng.randint(1, t.submit_retries)
+        if (self.policy == 'any' and t.submit_retries and self.p_subvanish
+                and rng.random() < 0.25):
+            # every submission fails (plainly, or accepted and then lost):
+            # the task ends submit-failed after M+1 attempts
+            for _ in range(t.submit_retries + 1):
+                if rng.random() < self.p_subvanish:
+                    out.append({'submit': True, 'final': 'subvanish',
+                                'outputs': []})
+                else:
+                    out.append({'submit': False, 'final': None,
+                                'outputs': []})
+            self.cache[key] = out
+            return out
         e = 0
         may_fail_final = (self.policy == 'any') or t.opt.get('succeeded')
         final = 'succeeded'
@@ -74,7 +89,12 @@ class OutcomePlan:
             elif may_fail_final:
                 final = 'failed'
         for _ in range(s):
-            out.append({'submit': False, 'final': None, 'outputs': []})
+            if rng.random() < self.p_subvanish:
+                # submitted, then lost from the job runner before starting
+                out.append({'submit': True, 'final': 'subvanish',
+                            'outputs': []})
+            else:
+                out.append({'submit': False, 'final': None, 'outputs': []})
         req = self.required_customs(t)
         for _ in range(e):
             out.append({
@@ -123,6 +143,10 @@ class OutcomePlan:
                     done.add('submit-failed')
                 continue
             done.add('submitted')
+            if job['final'] == 'subvanish':
+                if last:
+                    done.add('submit-failed')
+                continue
             done.add('started')
             for m in job['outputs']:
                 done.add(m[4:] if m.startswith('msg ') else m)
